@@ -50,6 +50,8 @@ type Script struct {
 	MaxHits    int      `json:"max_hits"`             // pacer answers stop once this many hits were released (safety net for unlimited scripts), 0 = none
 	TimeoutMs  int      `json:"timeout_ms,omitempty"` // request timeout of the client, 0 = none
 	WaitUs     int      `json:"wait_us,omitempty"`    // unit of Waits in microseconds (0 = 1000: milliseconds)
+	PaceLatUs  int      `json:"pace_lat_us,omitempty"` // the pacer itself takes this long to answer (0 = no time at all)
+	StepMs     int      `json:"step_ms,omitempty"`     // the monitor looks at the run every StepMs instants (0 = 1: every instant)
 }
 
 func pick(xs []int, i int, def int) int {
@@ -78,6 +80,7 @@ type scriptPacer struct {
 func (p *scriptPacer) Pace(elapsed time.Duration, hits uint64) (time.Duration, bool) {
 	var wait time.Duration
 	var stop bool
+	var lat time.Duration
 	p.tr.Locked(func() {
 		p.calls++
 		k := p.calls
@@ -98,9 +101,17 @@ func (p *scriptPacer) Pace(elapsed time.Duration, hits uint64) (time.Duration, b
 			}
 			wait = time.Duration(pick(p.sc.Waits, k-1, 0)) * unit
 		}
-		p.tr.EmitLocked("Pace", KV{"t": p.now(), "elapsed": elapsed.Microseconds(), "elapsed_ns_rem": int64(elapsed % time.Microsecond),
-			"hits": hits, "wait": wait.Microseconds(), "stop": stop})
+		ev := KV{"t": p.now(), "elapsed": elapsed.Microseconds(), "elapsed_ns_rem": int64(elapsed % time.Microsecond),
+			"hits": hits, "wait": wait.Microseconds(), "stop": stop}
+		if p.sc.PaceLatUs > 0 && !stop {
+			// a pacer that takes its time to answer: the wait it returns counts from the moment it returns it ("rt", which in
+			// virtual time is known beforehand)
+			lat = time.Duration(p.sc.PaceLatUs) * time.Microsecond
+			ev["rt"] = p.now() + int64(p.sc.PaceLatUs)
+		}
+		p.tr.EmitLocked("Pace", ev)
 	})
+	time.Sleep(lat)
 	return wait, stop
 }
 
@@ -195,7 +206,9 @@ func scriptHorizon(sc *Script) int {
 	// 1/2 at most: 60 further rounds of the repeating tail make a false horizon
 	// less likely than 1e-18.
 	tail := pick(sc.Waits, len(sc.Waits), 0) + pick(sc.Lat, len(sc.Lat), 0) + pick(sc.Cons, len(sc.Cons), 0) + 1
-	h := last + sum + horizonSlack + 60*tail
+	plat := (sc.PaceLatUs + 999) / 1000 // every answer of a slow pacer takes this long
+	tail += plat
+	h := last + sum + horizonSlack + 60*tail + plat*max(len(sc.Waits), sc.StopCall)
 	if sc.MaxHits > 0 {
 		h += sc.MaxHits * tail
 	}
@@ -316,8 +329,8 @@ func runScript(t *testing.T, tr *Tracer, sc *Script) {
 			select {
 			case <-consumerDone:
 			default:
-				if inst < horizon {
-					time.Sleep(time.Millisecond)
+				if step := max(1, sc.StepMs); inst*step < horizon {
+					time.Sleep(time.Duration(step) * time.Millisecond)
 					continue
 				}
 				// the attack had every reason to end and did not: unblock it so the bubble can be left
